@@ -235,6 +235,7 @@ def main(tier, seed):
     fault_mix = {}
     outcome_mix = {}
     text_checked = 0
+    lenient_first = 0
     while len(cases) < n:
         sc = genchart.valid_chart(rng, genchart.Profile(max_states=8, p_history=0.4, p_final=0.25, p_contract=0.2,
                                                         n_trans=(2, 7)))
@@ -265,6 +266,14 @@ def main(tier, seed):
             # the text path (import_from_yaml) must give the same verdict as the dictionary path
             try:
                 text = iofam.dump_yaml(d)
+                if rng.random() < 0.4:
+                    # the same text first loaded leniently (documented options): a later default import must not be affected
+                    import sismic.io
+                    try:
+                        sismic.io.import_from_yaml(text, ignore_schema=rng.random() < 0.7, ignore_validation=rng.random() < 0.5)
+                    except Exception:  # noqa
+                        pass
+                    lenient_first += 1
                 timpl = iofam.impl_import_text(text)
                 text_checked += 1
             except Exception as e:  # noqa
@@ -379,7 +388,7 @@ def main(tier, seed):
              'positions, benign variations (ignored keys, coercible scalars, empty lists) and unmodified documents; '
              'non-trivial = a fault or a variation was injected; distinct = distinct case terms',
         traces_validated_against_impl=len(cases), fault_mix=fault_mix, outcome_mix=outcome_mix,
-        text_path_compared=text_checked, mismatch_clauses=clauses,
+        text_path_compared=text_checked, lenient_load_first=lenient_first, mismatch_clauses=clauses,
         samples=[dict(faults=c[1]['faults'], implementation=c[1]['implementation'], yaml=(c[1]['yaml'] or '')[:400])
                  for c in cases[:40] if c[1]['faults'] and c[1]['faults'] != ['benign']][:2],
         source_blobs=repo_blob_ids(['sismic/io/yaml.py', 'sismic/io/datadict.py', 'sismic/model/statechart.py']),
@@ -391,3 +400,9 @@ def main(tier, seed):
                     'Use(str) on a list/mapping (Python repr) and non-string mapping keys are not modelled and not generated'],
                    n_viol)
     return v.finish()
+
+
+def replay(path):
+    import json
+    import icheck
+    return icheck.replay(path)
